@@ -14,6 +14,10 @@ Definition phrase_of (phrase : sx) (e : wevent) : option (list N) :=
 
 Definition run_case (c : list sx) : list sx :=
   match c with
+  | [Num _; Str name; Str quoted] =>
+      (* the constructor of a file response given this (download or file) name *)
+      [tag (if file_ctor_refuses name quoted then lit "refused" else lit "built");
+       of_bool (negb (setitem_refuses (disposition name quoted)))]
   | [rc; phrase; Str fault] =>
       (* the file vanishes between stat and open *)
       match rd_recipe rc with
